@@ -54,7 +54,7 @@ func validateJSONPatches(patches []byte) error {
 
 	for _, p := range jsonPatches {
 		pathMsg, ok := p["path"]
-		if !ok {
+		if !ok || pathMsg == nil { // (a JSON null decodes to a nil message)
 			return fmt.Errorf("%s: path not found", patch.JSONPatch)
 		}
 
